@@ -120,7 +120,7 @@ theorem okAlives_run (hk : ConstsOk k) (hw : WF t) (hl : validLocation cfg.locat
         = a.start + Int.ofNat (j * k.announceMs) := by
       intro j hj
       simp [List.getD, List.getElem?_map, List.getElem?_range hj, aliveObs, obsAlive]
-    refine ⟨⟨⟨⟨?_, ?_⟩, ?_⟩, ?_⟩, ?_⟩
+    refine ⟨⟨⟨⟨⟨?_, ?_⟩, ?_⟩, ?_⟩, ?_⟩, ?_⟩
     · -- first round
       rw [hL, ← List.map_take, List.take_range]
       have : (List.range (min (advertisements t).length n)).map (fun i => keyM (aliveAt t i))
@@ -206,6 +206,23 @@ theorem okAlives_run (hk : ConstsOk k) (hw : WF t) (hl : validLocation cfg.locat
               = ((a.upto - a.start) / (k.announceMs : Int) + 1) * (k.announceMs : Int) := by
             rw [Int.add_mul, Int.add_sub_cancel]; omega
           omega
+
+    · -- it does advertise
+      have h1 : (runCase k cfg target t searches (some a)).annStart = some a.start := rfl
+      have h2 : (runCase k cfg target t searches (some a)).annUpto = some a.upto := rfl
+      rw [h1, h2]
+      simp only [Bool.or_eq_true, decide_eq_true_eq, Bool.not_eq_true']
+      cases n with
+      | succ m => right; simp [List.range_succ]
+      | zero =>
+        left
+        have hn' : ticks k a = 0 := hn
+        unfold ticks at hn'
+        split at hn'
+        · by_cases hm : (runCase k cfg target t searches (some a)).maxAgeMs ≤ 0
+          · left; exact hm
+          · right; omega
+        · omega
 
 theorem okByebyes_run (hw : WF t) (hl : validLocation cfg.location = true)
     (searches : List SearchIn) (ann : Option AnnIn) :
